@@ -261,3 +261,304 @@ func resultPathsDeep(fn *ssa.Function, idx int, want bool, chain []*ssa.Call, de
 	}
 	return out, true
 }
+
+// ---------------------------------------------------------------- verdicts of helpers
+
+// ReachCondsDeep: ReachConds, and where a path tests what a private helper
+// answered, the helper's own conditions for that answer are spliced in (with
+// their call chain, so that Cond.Path reads them in fn's terms). Three kinds
+// of answer are understood:
+//
+//	if helper(x) {…}                       a bool
+//	switch route := helper(x); route {…}   a constant of an enum-like type
+//	out := helper(x); if out.f != nil {…}  a struct whose field is set or left zero
+//
+// All tests of one call's answer on a path are taken together: the helper
+// return blocks consistent with every one of them are the alternatives.
+func ReachCondsDeep(fn *ssa.Function, b *ssa.BasicBlock) ([][]Cond, bool) {
+	base, ok := ReachConds(fn, b)
+	if !ok {
+		return nil, false
+	}
+	return spliceVerdicts(base, nil, 0), true
+}
+
+// verdictTest: one test of a helper call's answer.
+type verdictTest struct {
+	kind  string // "bool" | "const" | "field"
+	pol   bool   // bool: wanted value; const: wanted equality; field: wanted "is nil"
+	k     *ssa.Const
+	field int
+}
+
+func verdictOf(c Cond) (*ssa.Call, verdictTest, bool) {
+	c = NormCond(c)
+	if call, ok := Unwrap(c.V).(*ssa.Call); ok {
+		if h := StaticCallee(&call.Call); PrivateHelper(h) && h.Signature.Results().Len() == 1 {
+			return call, verdictTest{kind: "bool", pol: c.True}, true
+		}
+		return nil, verdictTest{}, false
+	}
+	bin, ok := c.V.(*ssa.BinOp)
+	if !ok || (bin.Op != token.EQL && bin.Op != token.NEQ) {
+		return nil, verdictTest{}, false
+	}
+	x, y := unconvVal(bin.X), unconvVal(bin.Y)
+	if _, isK := x.(*ssa.Const); isK {
+		x, y = y, x
+	}
+	k, isK := y.(*ssa.Const)
+	if !isK {
+		return nil, verdictTest{}, false
+	}
+	eq := (bin.Op == token.EQL) == c.True
+	x = LoadedValue(x)
+	if call, ok := x.(*ssa.Call); ok && !k.IsNil() {
+		if h := StaticCallee(&call.Call); PrivateHelper(h) && h.Signature.Results().Len() == 1 {
+			return call, verdictTest{kind: "const", pol: eq, k: k}, true
+		}
+	}
+	if k.IsNil() {
+		// field of a struct a helper returned: Field(call, i), or a load of &local.f with local = call
+		switch f := x.(type) {
+		case *ssa.Field:
+			if call, ok := LoadedValue(f.X).(*ssa.Call); ok {
+				if h := StaticCallee(&call.Call); PrivateHelper(h) && h.Signature.Results().Len() == 1 {
+					return call, verdictTest{kind: "field", pol: eq, field: f.Field}, true
+				}
+			}
+		case *ssa.UnOp:
+			if fa, ok := f.X.(*ssa.FieldAddr); ok && f.Op == token.MUL {
+				if a, ok := fa.X.(*ssa.Alloc); ok {
+					if st := EffectiveStores(a); len(st) == 1 {
+						if call, ok := st[0].Val.(*ssa.Call); ok {
+							if h := StaticCallee(&call.Call); PrivateHelper(h) && h.Signature.Results().Len() == 1 {
+								return call, verdictTest{kind: "field", pol: eq, field: fa.Field}, true
+							}
+						}
+					}
+				}
+			}
+		}
+	}
+	return nil, verdictTest{}, false
+}
+
+func unconvVal(v ssa.Value) ssa.Value {
+	for {
+		switch x := v.(type) {
+		case *ssa.Convert:
+			v = x.X
+		case *ssa.ChangeType:
+			v = x.X
+		default:
+			return v
+		}
+	}
+}
+
+// fieldNilness of result #0 of h at return block rb: +1 definitely non-nil,
+// -1 nil / left zero, 0 unknown.
+func fieldNilness(h *ssa.Function, rb *ssa.BasicBlock, field int, depth int) int {
+	rv := LoadedValue(ReturnValues(LastInstr(rb).(*ssa.Return))[0])
+	return valueFieldNilness(rv, field, depth)
+}
+
+func valueFieldNilness(rv ssa.Value, field int, depth int) int {
+	if depth > 3 {
+		return 0
+	}
+	switch x := rv.(type) {
+	case *ssa.UnOp:
+		if a, ok := x.X.(*ssa.Alloc); ok && x.Op == token.MUL {
+			// composite literal: the field's store, if any
+			var val ssa.Value
+			n := 0
+			if a.Referrers() != nil {
+				for _, r := range *a.Referrers() {
+					if fa, ok := r.(*ssa.FieldAddr); ok && fa.Field == field && fa.Referrers() != nil {
+						for _, r2 := range *fa.Referrers() {
+							if st, ok := r2.(*ssa.Store); ok && st.Addr == ssa.Value(fa) {
+								val = st.Val
+								n++
+							}
+						}
+					}
+				}
+			}
+			if n == 0 {
+				return -1
+			}
+			if n > 1 {
+				return 0
+			}
+			return nilness(val, depth)
+		}
+	case *ssa.Call:
+		g := StaticCallee(&x.Call)
+		if !PrivateHelper(g) || len(g.Params) != len(x.Call.Args) {
+			return 0
+		}
+		res := 2
+		for _, grb := range ReturnBlocks(g) {
+			grv := LoadedValue(ReturnValues(LastInstr(grb).(*ssa.Return))[0])
+			n := 0
+			// the field may be one of g's parameters: then the argument decides
+			if u, ok := grv.(*ssa.UnOp); ok && u.Op == token.MUL {
+				if a, ok := u.X.(*ssa.Alloc); ok && a.Referrers() != nil {
+					found := false
+					for _, r := range *a.Referrers() {
+						if fa, ok := r.(*ssa.FieldAddr); ok && fa.Field == field && fa.Referrers() != nil {
+							for _, r2 := range *fa.Referrers() {
+								if st, ok := r2.(*ssa.Store); ok && st.Addr == ssa.Value(fa) {
+									found = true
+									if p, isPar := st.Val.(*ssa.Parameter); isPar {
+										for i, gp := range g.Params {
+											if gp == p {
+												n = nilness(x.Call.Args[i], depth+1)
+											}
+										}
+									} else {
+										n = nilness(st.Val, depth+1)
+									}
+								}
+							}
+						}
+					}
+					if !found {
+						n = -1
+					}
+				}
+			}
+			if res == 2 {
+				res = n
+			} else if res != n {
+				res = 0
+			}
+		}
+		if res == 2 {
+			return 0
+		}
+		return res
+	}
+	return 0
+}
+
+func nilness(v ssa.Value, depth int) int {
+	v = LoadedValue(Unwrap(v))
+	if IsNilConst(v) {
+		return -1
+	}
+	switch x := v.(type) {
+	case *ssa.Alloc, *ssa.MakeMap, *ssa.MakeSlice, *ssa.MakeChan, *ssa.MakeClosure, *ssa.Function:
+		return 1
+	case *ssa.Call:
+		// a constructor: every return hands out a fresh allocation
+		g := StaticCallee(&x.Call)
+		if g == nil || len(g.Blocks) == 0 || depth > 3 {
+			return 0
+		}
+		for _, rb := range ReturnBlocks(g) {
+			rvs := ReturnValues(LastInstr(rb).(*ssa.Return))
+			if len(rvs) == 0 || nilness(rvs[0], depth+1) != 1 {
+				return 0
+			}
+		}
+		return 1
+	}
+	return 0
+}
+
+func spliceVerdicts(paths [][]Cond, chain []*ssa.Call, depth int) [][]Cond {
+	if depth >= 2 {
+		return paths
+	}
+	var out [][]Cond
+	for _, cs := range paths {
+		// the tests of each helper call on this path
+		tests := map[*ssa.Call][]verdictTest{}
+		var order []*ssa.Call
+		for _, c := range cs {
+			if call, t, ok := verdictOf(c); ok {
+				if _, seen := tests[call]; !seen {
+					order = append(order, call)
+				}
+				tests[call] = append(tests[call], t)
+			}
+		}
+		cur := [][]Cond{cs}
+		for _, call := range order {
+			h := StaticCallee(&call.Call)
+			var alts [][]Cond
+			known := true
+			nchain := append(append([]*ssa.Call(nil), chain...), call)
+			tag := func(scs []Cond) []Cond {
+				tagged := make([]Cond, len(scs))
+				for i, c := range scs {
+					if c.Chain == nil {
+						c.Chain = nchain
+					}
+					tagged[i] = c
+				}
+				return tagged
+			}
+			if tests[call][0].kind == "bool" {
+				rps, ok := ResultPaths(h, 0, tests[call][0].pol)
+				if !ok {
+					continue
+				}
+				for _, rp := range rps {
+					alts = append(alts, tag(rp.Conds))
+				}
+			} else {
+				for _, rb := range ReturnBlocks(h) {
+					rv := LoadedValue(ReturnValues(LastInstr(rb).(*ssa.Return))[0])
+					consistent := true
+					for _, t := range tests[call] {
+						switch t.kind {
+						case "const":
+							k, isK := unconvVal(rv).(*ssa.Const)
+							if !isK || k.Value == nil || t.k.Value == nil {
+								known = false
+								continue
+							}
+							if (k.Value.ExactString() == t.k.Value.ExactString()) != t.pol {
+								consistent = false
+							}
+						case "field":
+							n := fieldNilness(h, rb, t.field, 0)
+							if (n == 1 && t.pol) || (n == -1 && !t.pol) {
+								consistent = false
+							}
+						}
+					}
+					if !consistent {
+						continue
+					}
+					sub, ok := ReachConds(h, rb)
+					if !ok {
+						known = false
+						continue
+					}
+					for _, scs := range sub {
+						alts = append(alts, tag(scs))
+					}
+				}
+			}
+			if !known || len(alts) == 0 || len(alts)*len(cur) > 2048 {
+				continue
+			}
+			alts = spliceVerdicts(alts, nchain, depth+1)
+			var next [][]Cond
+			for _, c0 := range cur {
+				for _, a := range alts {
+					next = append(next, append(append([]Cond(nil), c0...), a...))
+				}
+			}
+			cur = next
+		}
+		out = append(out, cur...)
+	}
+	return out
+}
+
